@@ -125,8 +125,9 @@ def eval_adverb_each2(f, a, b, backend=None):
         return bknp.asarray([]) if is_list(a) or is_list(b) else ""
     if is_atom(a) and is_atom(b):
         return f(a,b)
-    a = [KGChar(x) for x in a] if isinstance(a,str) else a
-    b = [KGChar(x) for x in b] if isinstance(b,str) else b
+    if backend is not None:
+        a = backend.str_to_chr_arr(a) if isinstance(a,str) else a
+        b = backend.str_to_chr_arr(b) if isinstance(b,str) else b
     r = [f(x,y) for x,y in zip(a,b)]
     # a list of characters is a string; any other results stay a list
     if all(is_char(u) for u in r):
@@ -261,7 +262,7 @@ def eval_adverb_over(f, a, op, backend):
     return functools.reduce(f, a)
 
 
-def eval_adverb_over_neutral(f, a, b):
+def eval_adverb_over_neutral(f, a, b, backend=None):
     """
 
         a f/b                                             [Over-Neutral]
@@ -291,7 +292,8 @@ def eval_adverb_over_neutral(f, a, b):
         return a
     if is_atom(b):
         return f(a,b)
-    b = [KGChar(x) for x in b] if isinstance(b,str) else b
+    if backend is not None:
+        b = backend.str_to_chr_arr(b) if isinstance(b,str) else b
     return functools.reduce(f,b[1:],f(a,b[0]))
 
 
@@ -460,7 +462,7 @@ def get_adverb_fn(klong, s, arity):
     if s == "'":
         return (lambda f,a,b: eval_adverb_each2(f,a,b,backend)) if arity == 2 else lambda f,a,op: eval_adverb_each(f,a,op,backend)
     elif s == '/':
-        return eval_adverb_over_neutral if arity == 2 else lambda f,a,op: eval_adverb_over(f,a,op,backend)
+        return (lambda f,a,b: eval_adverb_over_neutral(f,a,b,backend)) if arity == 2 else lambda f,a,op: eval_adverb_over(f,a,op,backend)
     elif s == '\\':
         return (lambda f,a,b: eval_adverb_scan_over_neutral(f,a,b,backend)) if arity == 2 else lambda f,a,op: eval_adverb_scan_over(f,a,op,backend)
     elif s == '\\~':
